@@ -105,13 +105,26 @@ def run_shard(ctx):
         if i % ctx.nshards != ctx.shard % 4 or ctx.shard >= 4: continue
         d = bytearray(e['data']); d[20:24] = (3600).to_bytes(2, 'little') * 2
         run_one(ctx, e, bytes(d), 'anm', e['game'], None, 'extract', 'mutant', {'kind': 'directed-image-offsets', 'offset_x': 3600, 'offset_y': 3600})
+    # directed: every argument word of every instruction of the modern-ECL files (the only format with length-prefixed strings inside
+    # argument blobs) set to a value just past / far past what is left of the blob
+    jobs = []
+    for e in [e for e in corp if e['tool'] == 'ecl' and e['data'][:4] == b'SCPT']:
+        for (pos, ln) in e['regions']:
+            for wq in range(pos, pos + ln - 3, 4):
+                left = pos + ln - wq - 4
+                for v in (left + 1, 0x40, 0x7fffffff): jobs.append((e, wq, v))
+    cap = 60 if q else 500            # per shard (each shard generates its own corpus)
+    if len(jobs) > cap: jobs = r.sample(jobs, cap)
+    for i, (e, q2, v) in enumerate(jobs):
+        d = bytearray(e['data']); old = int.from_bytes(d[q2:q2 + 4], 'little'); d[q2:q2 + 4] = v.to_bytes(4, 'little')
+        run_one(ctx, e, bytes(d), 'ecl', e['game'], None, 'decompile', 'mutant', {'kind': 'directed-argword', 'pos': q2, 'old': old, 'new': v}); ctx.count('argword_mutants')
     while done < n:
         e = r.pick(corp)
         data = e['data']
         tool, game, msg_mode = e['tool'], e['game'], e['msg_mode']
-        k = r.wpick([('field', 10), ('field2', 3), ('region', 2), ('mutate', 4), ('truncate-sweep', 0.6), ('truncate-fields', 0.6), ('cross-game', 1.5), ('double', 1)])
-        if k in ('field', 'field2', 'region') and not e['fields']: k = 'mutate'
-        if k == 'region' and not e['regions']: k = 'field'
+        k = r.wpick([('field', 10), ('field2', 3), ('region', 2), ('argword', 3), ('mutate', 4), ('truncate-sweep', 0.6), ('truncate-fields', 0.6), ('cross-game', 1.5), ('double', 1)])
+        if k in ('field', 'field2', 'region', 'argword') and not e['fields']: k = 'mutate'
+        if k in ('region', 'argword') and not e['regions']: k = 'field'
         if k == 'truncate-sweep':
             step = max(1, len(data) // 40)
             for cut in range(0, len(data), step):
@@ -136,6 +149,8 @@ def run_shard(ctx):
             m, mut = FM.mutate_field(r, data, e['fields']); m, mut2 = FM.mutate_field(r, m, e['fields']); mut = [mut, mut2]; ctx.count('field_mutants')
         elif k == 'region':
             m, mut = FM.mutate_region(r, data, e['regions']); ctx.count('region_mutants')
+        elif k == 'argword':
+            m, mut = FM.mutate_argword(r, data, e['regions']); ctx.count('argword_mutants')
         else:
             m, kind, pos = mutate.mutate_bytes(r, data)
             if k == 'double': m, kind2, pos2 = mutate.mutate_bytes(r, m); kind = kind + '+' + kind2
